@@ -372,6 +372,11 @@ func PoolB() *Pool {
 	add("d(X,Y) :- k(X,Z), Y = fn:plus(Z, X), n(Y).")
 	add("hf(fn:plus(X, 1)) :- n(X).")
 	add("hf(fn:pair(X, Y)) :- k(X,Y), X != Y.")
+	// a function application in the head of a rule that also has a transform
+	add("hl(fn:plus(X, 1), D) :- n(X) |> let D = fn:mult(X, 2).")
+	add("hl(fn:pair(X, D), D) :- n(X), X > 0 |> let D = fn:plus(X, 1).")
+	add("hd(fn:plus(X, 1), C) :- k(X,Y) |> do fn:group_by(X), let C = fn:count().")
+	add("hd(fn:pair(X, C), C) :- k(X,Y) |> do fn:group_by(X), let C = fn:sum(Y).")
 	add("e2(X) :- n(X), Y = fn:plus(X, 1), n(Y).")
 	add("e2(X) :- n(X), Y = fn:minus(X, 1), !n(Y).")
 	add("e3(X,Z) :- k(X,Y), W = fn:plus(Y, 1), k(W,Z).")
